@@ -46,14 +46,28 @@ Proof.
   - destruct (contains0 ds) eqn:E; [reflexivity|]. apply contains0_false, positiveb_spec in E. congruence.
 Qed.
 
-Lemma m_roundtrip_spec (t : tensor Z) : wf t -> m_roundtrip t = Some (true, data t).
+Lemma usize_max_pos : 0 < usize_max.
+Proof. reflexivity. Qed.
+(** a tensor the executor can hold: constructed, and its element count fits into usize *)
+Definition wfW (t : tensor Z) : Prop := wf t /\ product (dims t) <= usize_max.
+
+Lemma leb_nat_N n k : (N.to_nat n <=? k)%nat = (n <=? N.of_nat k).
 Proof.
-  intros Hw. unfold m_roundtrip. rewrite (write_spec t Hw), (read_render t Hw), eq_refl_Z. reflexivity.
+  destruct (Nat.leb_spec (N.to_nat n) k); destruct (N.leb_spec n (N.of_nat k)); try reflexivity; lia.
+Qed.
+Lemma zip_assign_s_assign (l vs : list Z) : zip_assign l vs = s_assign l vs.
+Proof. exact (zip_assign_spec l vs). Qed.
+
+Lemma m_roundtrip_spec (t : tensor Z) : wfW t -> m_roundtrip t = Some (true, data t).
+Proof.
+  intros [Hw HW]. unfold m_roundtrip. rewrite (write_spec t Hw), (read_chk_spec _ _ _ usize_max_pos).
+  apply N.leb_le in HW. rewrite HW, (read_render t Hw), eq_refl_Z. reflexivity.
 Qed.
 
-Lemma m_op_s_op (t : tensor Z) o : wf t -> m_op t o = s_op (dims t) (data t) o.
+Lemma m_op_s_op (t : tensor Z) o : wfW t -> m_op t o = s_op (dims t) (data t) o.
 Proof.
-  intros Hw. pose proof Hw as [Hp Hl]. destruct o as [idx r|idx r|idx v ok|r|r|r|r|rdims toks r|edims edata r|r]; cbn [m_op s_op].
+  intros HwW. pose proof HwW as [Hw HW]. pose proof Hw as [Hp Hl].
+  destruct o as [idx r|idx r|idx v ok|r|r|r|r|rdims toks r|edims edata r|r|vs cnt]; cbn [m_op s_op].
   - rewrite get_index_spec. destruct (validb (dims t) idx); reflexivity.
   - unfold index. rewrite get_index_spec. destruct (validb (dims t) idx) eqn:E; [|reflexivity].
     apply validb_spec in E. pose proof (offset_lt _ _ E) as Hlt.
@@ -65,14 +79,17 @@ Proof.
   - reflexivity.
   - reflexivity.
   - rewrite (write_spec t Hw). reflexivity.
-  - rewrite (m_roundtrip_spec t Hw). reflexivity.
-  - unfold read. rewrite contains0_positiveb, prod_product, read_vec_spec.
-    destruct (positiveb rdims); cbn [negb andb]; [|reflexivity].
-    destruct (N.to_nat (product rdims) <=? length (elems toks))%nat; reflexivity.
-  - rewrite from_vec_spec. unfold s_constructible.
-    destruct (positiveb edims && (product edims =? N.of_nat (length edata))); [|reflexivity].
+  - rewrite (m_roundtrip_spec t HwW). reflexivity.
+  - rewrite (read_chk_spec _ _ _ usize_max_pos). unfold read, s_shape.
+    rewrite contains0_positiveb, prod_product, read_vec_spec, leb_nat_N.
+    destruct (positiveb rdims); cbn [negb andb]; [|destruct (product rdims <=? usize_max); reflexivity].
+    destruct (product rdims <=? usize_max); cbn [andb]; [|reflexivity].
+    destruct (product rdims <=? N.of_nat (length (elems toks))); reflexivity.
+  - rewrite (from_vec_chk_spec _ _ _ usize_max_pos). unfold s_constructible, s_shape.
+    destruct (positiveb edims && (product edims <=? usize_max) && (product edims =? N.of_nat (length edata))); [|reflexivity].
     rewrite (eq_sym_Z t (mk edims edata)), andb_diag. unfold eq, lNeqb, lZeqb. cbn [dims data]. reflexivity.
   - rewrite (debug_correct t Hw). reflexivity.
+  - rewrite lenN_length. reflexivity.
 Qed.
 
 Lemma index_mut_spec (t : tensor Z) idx v : wf t ->
@@ -89,35 +106,43 @@ Proof.
   intros H. unfold s_update. rewrite app_length. cbn [length]. rewrite firstn_length, skipn_length. lia.
 Qed.
 
-Lemma m_ops_s_ops ops : forall t : tensor Z, wf t -> m_ops t ops = s_ops (dims t) (data t) ops.
+Lemma m_ops_s_ops ops : forall t : tensor Z, wfW t -> m_ops t ops = s_ops (dims t) (data t) ops.
 Proof.
-  induction ops as [|o ops IH]; intros t Hw; [reflexivity|].
-  destruct o as [idx r|idx r|idx v ok|r|r|r|r|rdims toks r|edims edata r|r];
-    try (cbn [m_ops s_ops]; rewrite (m_op_s_op t _ Hw), (IH t Hw); reflexivity).
-  cbn [m_ops s_ops]. rewrite (index_mut_spec t idx v Hw).
-  destruct (validb (dims t) idx) eqn:E; [|rewrite (IH t Hw); reflexivity].
-  rewrite IH; [reflexivity|].
-  destruct Hw as [Hp Hl]. split; [exact Hp|]. cbn [dims data].
-  apply validb_spec in E. pose proof (offset_lt _ _ E) as Hlt.
-  rewrite s_update_length by lia. exact Hl.
+  induction ops as [|o ops IH]; intros t HwW; [reflexivity|]. pose proof HwW as [Hw HW].
+  destruct o as [idx r|idx r|idx v ok|r|r|r|r|rdims toks r|edims edata r|r|vs cnt];
+    try (cbn [m_ops s_ops]; rewrite (m_op_s_op t _ HwW), (IH t HwW); reflexivity).
+  - cbn [m_ops s_ops]. rewrite (index_mut_spec t idx v Hw).
+    destruct (validb (dims t) idx) eqn:E; [|rewrite (IH t HwW); reflexivity].
+    rewrite IH; [reflexivity|].
+    destruct Hw as [Hp Hl]. split; [|exact HW]. split; [exact Hp|]. cbn [dims data].
+    apply validb_spec in E. pose proof (offset_lt _ _ E) as Hlt.
+    rewrite s_update_length by lia. exact Hl.
+  - cbn [m_ops s_ops]. rewrite (m_op_s_op t _ HwW). rewrite IH.
+    + unfold iter_mut_assign. cbn [dims data]. rewrite zip_assign_s_assign. reflexivity.
+    + destruct Hw as [Hp Hl]. split; [|exact HW]. split; [exact Hp|].
+      unfold iter_mut_assign. cbn [dims data]. rewrite zip_assign_length. exact Hl.
 Qed.
 
 Theorem model_check_spec_check c : model_check c = spec_check c.
 Proof.
-  unfold model_check, spec_check, construct, s_initial, s_constructible.
+  unfold model_check, spec_check, construct, s_initial, s_constructible, s_shape.
   destruct c as [ds ct l ok ops]. cbn [c_dims c_ctor c_data c_ok c_ops].
   destruct ct as [| |v].
-  - rewrite from_vec_spec.
-    destruct (positiveb ds && (product ds =? N.of_nat (length l))) eqn:E; [|reflexivity].
+  - rewrite (from_vec_chk_spec _ _ _ usize_max_pos).
+    destruct (positiveb ds && (product ds <=? usize_max) && (product ds =? N.of_nat (length l))) eqn:E; [|reflexivity].
     rewrite m_ops_s_ops; [reflexivity|].
-    apply andb_true_iff in E. destruct E as [P Q]. apply positiveb_spec in P. apply N.eqb_eq in Q.
-    split; [exact P|]. cbn [dims data]. lia.
-  - rewrite from_slice_spec.
-    destruct (positiveb ds && (product ds =? N.of_nat (length l))) eqn:E; [|reflexivity].
+    apply andb_true_iff in E. destruct E as [E Q]. apply andb_true_iff in E. destruct E as [P B].
+    apply positiveb_spec in P. apply N.eqb_eq in Q. apply N.leb_le in B.
+    split; [|exact B]. split; [exact P|]. cbn [dims data]. lia.
+  - rewrite (from_slice_chk_spec _ _ _ usize_max_pos).
+    destruct (positiveb ds && (product ds <=? usize_max) && (product ds =? N.of_nat (length l))) eqn:E; [|reflexivity].
     rewrite m_ops_s_ops; [reflexivity|].
-    apply andb_true_iff in E. destruct E as [P Q]. apply positiveb_spec in P. apply N.eqb_eq in Q.
-    split; [exact P|]. cbn [dims data]. lia.
-  - rewrite new_spec. destruct (positiveb ds) eqn:P; [|reflexivity].
+    apply andb_true_iff in E. destruct E as [E Q]. apply andb_true_iff in E. destruct E as [P B].
+    apply positiveb_spec in P. apply N.eqb_eq in Q. apply N.leb_le in B.
+    split; [|exact B]. split; [exact P|]. cbn [dims data]. lia.
+  - rewrite (new_chk_spec _ _ _ usize_max_pos).
+    destruct (positiveb ds && (product ds <=? usize_max)) eqn:E; [|reflexivity].
     rewrite m_ops_s_ops; [reflexivity|].
-    apply positiveb_spec in P. split; [exact P|]. cbn [dims data]. rewrite repeat_length. lia.
+    apply andb_true_iff in E. destruct E as [P B]. apply positiveb_spec in P. apply N.leb_le in B.
+    split; [|exact B]. split; [exact P|]. cbn [dims data]. rewrite repeat_length. lia.
 Qed.
